@@ -143,9 +143,12 @@ pub async fn judge_crash_dir(cfg: &Cfg, dir: &Path, lazy: bool, nkeys: u8, findi
         }
         let rec = blobfmt::parse_blob_file(&out, keylen).map_err(|e| Failure { clause: "harness/read".into(), detail: e.to_string(), step: 0, op: String::new() })?;
         let sig = |r: &ParsedRec| (r.hdr.key.clone(), r.hdr.timestamp, r.hdr.flags, blobfmt::parse_meta(&r.meta), r.data.clone());
-        let want: Vec<_> = parsed.records.iter().take_while(|r| r.data_crc_ok).map(sig).collect();
+        // a torn record meta has no checksum of its own: a tear that leaves the header and the data intact is only
+        // visible as a meta that no longer decodes to exactly meta_size bytes; such a record is part of the damage
+        let want: Vec<_> = parsed.records.iter().take_while(|r| r.data_crc_ok && (r.meta.is_empty() || blobfmt::parse_meta(&r.meta).is_some())).map(sig).collect();
         let got: Vec<_> = rec.records.iter().map(sig).collect();
-        if rec.end != ParseEnd::Clean || got.len() < want.len() || got[..want.len()] != want[..] {
+        let undetectable_tear = parsed.records.iter().any(|r| !r.meta.is_empty() && blobfmt::parse_meta(&r.meta).is_none());
+        if (rec.end != ParseEnd::Clean && !undetectable_tear) || got.len() < want.len() || got[..want.len()] != want[..] {
             return fail("crash/recovery-incomplete", format!("blob {}: recovered {} records, {} complete records precede the damage", id, got.len(), want.len()));
         }
         labels.insert("recovered".to_string());
